@@ -1,8 +1,8 @@
 SPECIFICATION Spec
 CONSTANTS
-  MaxC = 2
+  MaxC = 1
   MaxH = 2
-  Sizes = {0, 1, 3}
+  Sizes = {0, 3}
   Tamper = FALSE
   LenVals = {}
 VIEW view
